@@ -600,6 +600,10 @@ def agreement(reader, rflags, rmode, Tm, Te, groups, rgroups=None, alpha=None):
     Rm = _renamed(regex_lang(reader, rflags, rmode, [rgroups[g] for g in groups], None, alpha), markers)
     Re = regex_lang(reader, rflags, rmode, (), [], alpha)
     w1 = Te.not_subset_witness(Re)
+    for g in groups:
+        k = tail_kind(reader, rflags, rgroups[g])
+        if k is not None:
+            Rm = prune_tail(Rm, g, k)
     nA = alpha.n
     seen = {(0, 0, 0): None}
     dq = deque([(0, 0, 0)])
@@ -826,3 +830,125 @@ def bytes_pattern_as_str(pattern):
                 walk(av[2], av[1] == MAXREPEAT)
     walk(tree, False)
     return pattern.decode('ascii')
+
+
+# ---- backtracking priority for a group that ends in a lazy / greedy single-character repeat -------
+
+def tail_kind(pattern, flags, group):
+    """'lazy' / 'greedy' when the body of `group` is <fixed-length single-char leaves> followed by an
+    unbounded MIN_/MAX_REPEAT of one single-char leaf and the group is a direct element of the
+    top-level sequence (possibly inside optional wrappers); else None."""
+    tree = parse(pattern, flags)
+    gd = tree.state.groupdict
+    gnum = gd.get(group, group) if not isinstance(group, int) else group
+
+    def find(seq):
+        for op, av in seq:
+            ops = str(op)
+            if ops == 'SUBPATTERN':
+                if av[0] == gnum:
+                    return av[3]
+                r = find(av[3])
+                if r is not None:
+                    return r
+            elif ops in ('MAX_REPEAT', 'MIN_REPEAT') and av[1] == 1:
+                r = find(av[2])
+                if r is not None:
+                    return r
+        return None
+    body = find(tree)
+    if body is None or len(body) == 0:
+        return None
+    items = list(body)
+    for op, av in items[:-1]:
+        if str(op) not in ('LITERAL', 'NOT_LITERAL', 'ANY', 'IN'):
+            return None
+    op, av = items[-1]
+    if str(op) in ('MIN_REPEAT', 'MAX_REPEAT') and av[1] == MAXREPEAT and len(av[2]) == 1 \
+            and str(av[2][0][0]) in ('LITERAL', 'NOT_LITERAL', 'ANY', 'IN'):
+        return 'lazy' if str(op) == 'MIN_REPEAT' else 'greedy'
+    return None
+
+
+def prune_tail(Rm, g, kind):
+    """remove from the marked language Rm the parses that backtracking can never choose because
+    another parse with the same markers up to ⟨g closes g earlier (lazy) / later (greedy)."""
+    alpha = Rm.alpha
+    nA = alpha.n
+    markers = Rm.markers
+    kc = nA + markers.index(('close', g))
+    nM = len(markers)
+    co = _coacc(Rm)
+    T = Rm.trans
+    # NFA over the marked alphabet reading m; second component runs the competing parse m'
+    # phase 0: in sync; 1: competitor is "ahead"/"behind" (one of the two has closed g, the other not yet,
+    #          at least... ) ; 2: both closed, free markers for the competitor
+    # lazy : competitor closes first.   greedy: m closes first (competitor later).
+    def eps_closure(states):
+        st = list(states)
+        seen = set(states)
+        while st:
+            q1, q2, ph, gap = st.pop()
+            nxt = []
+            if kind == 'lazy':
+                if ph == 0:
+                    t = T[q2][kc]
+                    if t in co:
+                        nxt.append((q1, t, 1, False))       # competitor closes g now, m later
+                if ph == 2:
+                    for k in range(nM):
+                        t = T[q2][nA + k]
+                        if t in co and nA + k != kc:
+                            nxt.append((q1, t, 2, gap))
+            else:
+                if ph == 1 and gap:
+                    t = T[q2][kc]
+                    if t in co:
+                        nxt.append((q1, t, 2, gap))          # competitor closes g later than m
+                if ph == 2:
+                    for k in range(nM):
+                        t = T[q2][nA + k]
+                        if t in co and nA + k != kc:
+                            nxt.append((q1, t, 2, gap))
+            for c in nxt:
+                if c not in seen:
+                    seen.add(c)
+                    st.append(c)
+        return frozenset(seen)
+
+    def step(S, sym):
+        out = set()
+        for (q1, q2, ph, gap) in S:
+            t1 = T[q1][sym]
+            if t1 not in co:
+                continue
+            if sym < nA:
+                t2 = T[q2][sym]
+                if t2 in co:
+                    out.add((t1, t2, ph, True if ph == 1 else gap))
+            else:
+                if ph == 0:
+                    if sym == kc and kind == 'greedy':
+                        out.add((t1, q2, 1, False))           # m closes g now, competitor later
+                    else:
+                        t2 = T[q2][sym]
+                        if t2 in co:
+                            out.add((t1, t2, 0, gap))
+                elif ph == 1:
+                    if kind == 'lazy':
+                        if sym == kc:
+                            if gap:
+                                out.add((t1, q2, 2, gap))
+                        # other markers of m while the competitor is ahead: m's own business
+                        else:
+                            out.add((t1, q2, 1, gap))
+                    else:
+                        out.add((t1, q2, 1, gap))
+                else:
+                    out.add((t1, q2, 2, gap))
+        return eps_closure(out) if out else frozenset()
+
+    def accepting(S):
+        return any(ph == 2 and Rm.acc[q1] and Rm.acc[q2] for (q1, q2, ph, gap) in S)
+    dominated = from_function(alpha, markers, eps_closure({(0, 0, 0, False)}), step, accepting)
+    return Rm.minus(dominated)
